@@ -970,6 +970,26 @@ class _FuncAnalysis:
                             facts = self.add(facts, ssym - sl)
                         st = State(facts, st.regions)
             return self.clobber_addr_args(st, e, skip={di})
+        if name in ('strncat', '__builtin_strncat') and len(args) >= 3:
+            # appends at most n characters AND a terminator behind the existing string
+            d0 = strip(args[0])
+            n = self.lin(args[2], st)
+            a = self.lin(args[0], st)
+            reg = self.region_of(args[0], st)
+            dl = Lin.sym(('strlen', self.strkey(d0), render(d0)))
+            text = 'strncat(%s, %s)' % (render(args[0])[:30], render(args[2])[:30])
+            if a is None or n is None or reg is None or reg.cap is None:
+                self.oblige('write', e, text, False, 'cannot express destination, count or capacity of %s' % render(e)[:60])
+            elif not n.is_const() and not self.entails(st, n):
+                self.oblige('write', e, text, False, 'the count %s can be negative (wraps around)' % n)
+            else:
+                g = reg.base + reg.cap - a - dl - n - Lin.const(1)
+                ok = self.entails(st, g)
+                self.oblige('write', e, text, ok,
+                            '' if ok else 'strncat writes up to n characters plus a terminator: need strlen(dest) + %s + 1 <= '
+                            'capacity, i.e. %s >= 0 (a count of "capacity - strlen(dest)" is one too many)' % (n, g),
+                            how='strlen(dest) + n + 1 <= capacity entailed')
+            return self.clobber_addr_args(self.kill_strlen_of_region(st, reg), e, skip={0})
         if name in UNBOUNDED_WRITERS:
             di, si = UNBOUNDED_WRITERS[name]
             if di < len(args):
